@@ -1,7 +1,8 @@
 """C16 — re-encoding a line for pickle, grafana.net or Kafka preserves the datapoint.
 
-1. spec/Schemas.tla is the decision specification (rule order, selection on the name as Graphite
-   presents it, MetricData fields, representability, pickle output).  TLC enumerates every rule list
+1. spec/Schemas.tla is the decision specification (rule order -- priority descending, then file order, where
+   a rule without a `priority` line and a rule with an explicit `priority = 0` have the same priority --,
+   selection on the name as Graphite presents it, MetricData fields, representability, pickle output).  TLC enumerates every rule list
    of the bounded space with the expected outcome of every line class, checks the decision's own
    invariants on each, and named deviations must violate them.
 2. checks/c16.py concretises every case by construction (pattern text from the abstract pattern,
@@ -51,7 +52,7 @@ def schemas_text(rules, c):
     for i, r in enumerate(rules):
         out.append("[rule%d]" % (i + 1))
         out.append("pattern = %s" % pattern_text(r["pat"]))
-        if r["prio"] >= 0:
+        if r["prio"] != ABSENT:             # Schemas.tla: Absent = no priority line; 0 is written out
             out.append("priority = %d" % r["prio"])
         out.append("retentions = %s" % ((RET_OLD if (c + i) % 2 == 0 else RET_NEW)[i]))
         out.append("")
@@ -68,7 +69,8 @@ def line_text(line, i, c, tsvar=0, val=None):
     return "%s %s %s" % (tok, v, ts), v, ts
 
 
-DEVS = dict(always_semicolon="UntaggedPresentation", tags_unsorted="TagsPresentedSorted", prio_reversed="SelectIsFirst",
+ABSENT = -1
+DEVS = dict(absent_priority_sorts_first="SelectIsFirst", always_semicolon="UntaggedPresentation", tags_unsorted="TagsPresentedSorted", prio_reversed="SelectIsFirst",
             last_match="SelectIsFirst", file_order_only="SelectIsFirst", second_retention="IntervalIsFirstRetention")
 
 
@@ -94,10 +96,23 @@ def run(ctx):
     if not lines or not longlines or len(cases) < 100:
         raise Machinery("TLC generated no cases; log %s" % res["log"])
     ctx.log("TLC enumerated %d rule lists x %d line classes" % (len(cases), len(lines)))
-    devs = ["always_semicolon", "prio_reversed", "tags_unsorted"] if q else list(DEVS)
+    # the enumerated rule lists mix absent / explicit-0 / positive priorities at every file position (not vacuous)
+    mixes = set()
+    for case in cases:
+        pr = [("absent" if r["prio"] == ABSENT else "zero" if r["prio"] == 0 else "positive") for r in case["rules"]]
+        for a in range(len(pr)):
+            for b in range(a + 1, len(pr)):
+                mixes.add((a, pr[a], b, pr[b]))
+    need = {(a, x, b, y) for a in range(3) for b in range(a + 1, 3) for x in ("absent", "zero", "positive")
+            for y in ("absent", "zero", "positive")}
+    if need - mixes:
+        raise Machinery("rule lists enumerated by TLC lack priority mixes %s" % sorted(need - mixes)[:5])
+    devs = ["absent_priority_sorts_first", "always_semicolon", "prio_reversed", "tags_unsorted"] if q else list(DEVS)
     rejected = {}
     for dev in devs:
-        r = ctx.tlc("Schemas", "Schemas_mc.cfg", consts=dict(MaxSpecific=1, PatPool={1, 3, 5, 6, 7}, Dev=dev), workers=2,
+        # absent_priority_sorts_first needs three rules: <any>, explicit `priority = 0`, a later rule without a priority line
+        mc = dict(MaxSpecific=2, PatPool={1, 3, 5}) if dev == "absent_priority_sorts_first" else dict(MaxSpecific=1, PatPool={1, 3, 5, 6, 7})
+        r = ctx.tlc("Schemas", "Schemas_mc.cfg", consts=dict(mc, Dev=dev), workers=2,
                     expect_ok=False, count=False, timeout=1200)
         if r["violated"] != DEVS[dev]:
             raise Machinery("deviation %s is not rejected by %s (violated=%s; vacuity); log %s" % (dev, DEVS[dev], r["violated"], r["log"]))
@@ -138,6 +153,9 @@ def run(ctx):
         return dict(name=s_(md["name"]), tags=[s_(t) for t in md["tags"]], interval=md["interval"], time=int(l["ts"]),
                     vbits=vbits(l["v"]), org=conc[c]["org"])
 
+    def prio_class(r):
+        return "absent" if r["prio"] == ABSENT else "explicit-0" if r["prio"] == 0 else "positive"
+
     def line_class(c, i):
         ln = lines[i]["line"]
         return "%s ts=%s" % ("tagged" if ln["tags"] else "untagged", ln["ts"]) + (" badtag" if ln["bad"] else "")
@@ -172,6 +190,8 @@ def run(ctx):
                 if r[f] != exp[f]:
                     pk = cases[c]["rules"][rule - 1]["pat"]["kind"]
                     sig = "parseMetric-%s %s expected-rule-pattern=%s" % (f, line_class(c, i), pk)
+                    if f == "interval":
+                        sig += " expected-rule-priority=%s" % prio_class(cases[c]["rules"][rule - 1])
                     ctx.violation(sig, "line %r: %s = %r, the specification says %r (rule %d of\n%s)" % (
                         conc[c]["lines"][i], f, r[f], exp[f], rule, conc[c]["schemas"]),
                         dict(schemas=conc[c]["schemas"], line=conc[c]["lines"][i], got=r, expect=exp))
@@ -368,8 +388,9 @@ def run(ctx):
     cov["pickle_messages_reread_after_later_calls"] = nkept
     cov["pickle_frames_from_concurrent_destinations"] = nwire_multi
     cov["pickle_long_name_lines"] = len(plines) - nshort
-    cov["rule"] = ("cases = every storage-schemas rule list enumerated by TLC (default rule at any position with/without "
-                   "priority + <= 2 rules from %d patterns x 3 priorities (thorough: also <= 3 rules from 3 patterns); retentions in old and new syntax) x %d line classes "
+    cov["rule"] = ("cases = every storage-schemas rule list enumerated by TLC (default rule at any position without priority "
+                   "line / priority = 0 / priority = 1 + <= 2 rules from %d patterns x 4 priority attributes (no line, explicit 0, 1, 2) "
+                   "(thorough: also <= 3 rules from 3 patterns); retentions in old and new syntax) x %d line classes "
                    "(3 names x 5 tag lists incl. unsorted, 3 invalid-tag lists, 3 unrepresentable timestamp classes); "
                    "distinct_nontrivial = distinct (rule list with >= 2 rules, representable line) pairs whose MetricData was "
                    "compared field by field with TLC's expectation; pickle: %d lines (line classes x value spellings x timestamps, "
